@@ -12,6 +12,10 @@ INTS = [
     # machine ports and low-memory addresses with emulated behaviour
     b'&H3CF', b'&H3C5', b'&H3C4', b'&H3CE', b'&H3D8', b'&H3D9', b'&H3DA', b'&H201', b'&H60', b'&H61', b'&H3F8', b'&H378',
     b'1047', b'1050', b'1052', b'1054', b'1085', b'1097', b'1125', b'1126', b'1296', b'&H410', b'&H358', b'&H30', b'1450',
+    # odd spellings of numeric literals: empty/blank-only/interrupted radix literals, dangling exponents and type signs
+    b'&', b'& ', b'&O', b'&O ', b'&O  ', b'&H', b'&H ', b'&O 1 7', b'&O177 777', b'&O8', b'&HG', b'&HFFFFF', b'&O777777',
+    b'&o17', b'&h1f', b'1E', b'1E+', b'1D-', b'1e-5', b'2.5d+3', b'1E 5', b'.', b'-.', b'1..2', b'1 2', b'1%', b'1#', b'1!',
+    b'32768%', b'1E39', b'1D309', b'1E-50', b'00012', b'1.0000000000000000000000001',
 ]
 STRS = [
     b'""', b'"A"', b'"ABC"', b'STRING$(255,"x")', b'CHR$(0)', b'CHR$(255)', b'CHR$(0)+CHR$(255)', b'"C:\\X"',
